@@ -378,9 +378,11 @@ structure KInv (s : State) : Prop where
   kC : ∀ n, n < s.nN → (s.key (s.nkey n).owner).published = some n ∨ n ∈ (s.key (s.nkey n).owner).losers ∨
         ∃ t, (s.thr t).pend = some ((s.nkey n).owner, n)
   kN : ∀ k, (s.key k).losers.Nodup
+  /-- a loser exists only where somebody won -/
+  kW : ∀ k n, n ∈ (s.key k).losers → ∃ w, (s.key k).published = some w
 
 theorem KInv.init : KInv init := by
-  refine ⟨?_, ?_, ?_, ?_, ?_, ?_, ?_, ?_, ?_, ?_, ?_, ?_⟩
+  refine ⟨?_, ?_, ?_, ?_, ?_, ?_, ?_, ?_, ?_, ?_, ?_, ?_, ?_⟩
   · intro k hk; have : k ≠ 0 := by simp [PV.UThread.init] at hk; omega
     simp [PV.UThread.init, this]
   · intro n _; simp [PV.UThread.init]
@@ -395,13 +397,14 @@ theorem KInv.init : KInv init := by
   · intro k n hl; simp [PV.UThread.init] at hl; split at hl <;> simp at hl
   · intro n hn; simp [PV.UThread.init] at hn
   · intro k; simp [PV.UThread.init]; split <;> simp
+  · intro k n hl; simp [PV.UThread.init] at hl; split at hl <;> simp at hl
 
 /-- events that leave keys and native keys alone, keep `pend`, and store only NULL or under a published key -/
 theorem KInv.frame {s s' : State} (h : KInv s) (e1 : s'.key = s.key) (e2 : s'.nkey = s.nkey)
     (e4 : s'.nN = s.nN) (e5 : s'.nK = s.nK) (e7 : ∀ t, s'.nT ≤ t → s'.thr t = {})
     (e6 : ∀ t, (s'.thr t).pend = (s.thr t).pend)
     (e3 : ∀ t n, s'.tls t n ≠ 0 → s.tls t n ≠ 0 ∨ (s.key (s.nkey n).owner).published = some n) : KInv s' := by
-  refine ⟨?_, ?_, ?_, ?_, ?_, ?_, ?_, ?_, ?_, ?_, ?_, ?_⟩
+  refine ⟨?_, ?_, ?_, ?_, ?_, ?_, ?_, ?_, ?_, ?_, ?_, ?_, ?_⟩
   · intro k hk; rw [e1]; exact h.kB k (e5 ▸ hk)
   · intro n hn
     rw [e2]
@@ -431,6 +434,7 @@ theorem KInv.frame {s s' : State} (h : KInv s) (e1 : s'.key = s.key) (e2 : s'.nk
     · exact .inr (.inl h1)
     · exact .inr (.inr ⟨t, by rw [e6]; exact h1⟩)
   · intro k; rw [e1]; exact h.kN k
+  · intro k n hl; rw [e1] at hl ⊢; exact h.kW k n hl
 
 theorem KInv.val_lt {s : State} (h : KInv s) {t n : Nat} (hv : s.tls t n ≠ 0) : n < s.nN := by
   apply Classical.byContradiction; intro hn; exact hv ((h.nB n (by omega)).2 t)
@@ -440,7 +444,7 @@ theorem KInv.localNew {s s' : State} {a : Nat} {nf : Bool} (h : KInv s) (hs : lo
   have own : ∀ n, n < s.nN → (s.nkey n).owner ≠ s.nK := fun n hn => Nat.ne_of_lt (h.kO n hn)
   have lt_of_val : ∀ t n, s.tls t n ≠ 0 → n < s.nN := fun t n hv => by
     apply Classical.byContradiction; intro hn; exact hv ((h.nB n (by omega)).2 t)
-  refine ⟨?_, ?_, ?_, ?_, ?_, ?_, ?_, ?_, ?_, ?_, ?_, ?_⟩
+  refine ⟨?_, ?_, ?_, ?_, ?_, ?_, ?_, ?_, ?_, ?_, ?_, ?_, ?_⟩
   · intro k hk; simp only at hk ⊢; rw [upd_ne _ _ (by omega)]; exact h.kB k (by omega)
   · exact h.nB
   · exact h.tP
@@ -473,6 +477,12 @@ theorem KInv.localNew {s s' : State} {a : Nat} {nf : Bool} (h : KInv s) (hs : lo
     by_cases hk : k = s.nK
     · subst hk; simp
     · rw [upd_ne _ _ hk]; exact h.kN k
+  · intro k n hl
+    simp only at hl ⊢
+    by_cases hk : k = s.nK
+    · subst hk; simp at hl
+    · rw [upd_ne _ _ hk] at hl ⊢; exact h.kW k n hl
+
 theorem KInv.localFree {s s' : State} {a k : Nat} (h : KInv s) (hs : localFree s a k = .ok s') : KInv s' := by
   obtain ⟨_, _, _, _, rfl⟩ := localFree_ok hs
   -- only `wrapperFreed` of key `k` changes
@@ -482,7 +492,7 @@ theorem KInv.localFree {s s' : State} {a k : Nat} (h : KInv s) (hs : localFree s
     intro j; by_cases hj : j = k
     · subst hj; simp
     · simp [upd_ne _ _ hj]
-  refine ⟨?_, h.nB, h.tP, ?_, ?_, ?_, h.kO, ?_, h.kI, ?_, ?_, ?_⟩
+  refine ⟨?_, h.nB, h.tP, ?_, ?_, ?_, h.kO, ?_, h.kI, ?_, ?_, ?_, ?_⟩
   · intro j hj; simp only at hj ⊢; rw [upd_ne _ _ (by omega)]; exact h.kB j hj
   · intro j n hp; simp only at hp ⊢; rw [(e j).1] at hp; exact h.kP j n hp
   · intro t n hv; simp only at hv ⊢; rw [(e _).1]; exact h.kV t n hv
@@ -491,6 +501,8 @@ theorem KInv.localFree {s s' : State} {a k : Nat} (h : KInv s) (hs : localFree s
   · intro j n hl; simp only at hl ⊢; rw [(e j).2.1] at hl; rw [(e j).1]; exact h.kL j n hl
   · intro n hn; simp only at hn ⊢; rw [(e _).1, (e _).2.1]; exact h.kC n hn
   · intro j; simp only; rw [(e j).2.1]; exact h.kN j
+  · intro j n hl; simp only at hl ⊢; rw [(e j).2.1] at hl; rw [(e j).1]; exact h.kW j n hl
+
 theorem KInv.thr_lt {s : State} (h : KInv s) {t : Nat} (hp : (s.thr t).phase ≠ .absent) : t < s.nT := by
   apply Classical.byContradiction; intro hn
   have := h.tP t (by omega); rw [this] at hp; exact hp rfl
@@ -498,7 +510,7 @@ theorem KInv.thr_lt {s : State} (h : KInv s) {t : Nat} (hp : (s.thr t).phase ≠
 theorem KInv.keyCreate {s s' : State} {t k : Nat} (h : KInv s) (hs : keyCreate s t k = .ok s') : KInv s' := by
   obtain ⟨hph, hpd, hk, _, hpub, rfl⟩ := keyCreate_ok hs
   have ht : t < s.nT := h.thr_lt (by rcases hph with h1 | h1 <;> simp [h1])
-  refine ⟨h.kB, ?_, ?_, ?_, ?_, ?_, ?_, ?_, ?_, ?_, ?_, h.kN⟩
+  refine ⟨h.kB, ?_, ?_, ?_, ?_, ?_, ?_, ?_, ?_, ?_, ?_, h.kN, h.kW⟩
   · intro n hn; simp only at hn ⊢
     rw [upd_ne _ _ (by omega)]; exact h.nB n (by omega)
   · intro t' ht'; simp only at ht' ⊢
@@ -567,7 +579,13 @@ theorem KInv.keyCas {s s' : State} {t k : Nat} (h : KInv s) (hs : keyCas s t k =
       intro j; by_cases hj : j = k
       · subst hj; simp
       · simp [upd_ne _ _ hj]
-    refine ⟨?_, h.nB, ?_, ?_, ?_, ?_, h.kO, ?_, ?_, ?_, ?_, ?_⟩
+    refine ⟨?_, h.nB, ?_, ?_, ?_, ?_, h.kO, ?_, ?_, ?_, ?_, ?_, ?_⟩
+    rotate_right
+    · intro j m hl; simp only at hl ⊢
+      rw [(keyE j).1] at hl
+      by_cases hj : j = k
+      · subst hj; exact ⟨n, by simp⟩
+      · rw [upd_ne _ _ hj]; exact h.kW j m hl
     · intro j hj; simp only at hj ⊢; rw [upd_ne _ _ (by omega)]; exact h.kB j hj
     · intro t' ht'; simp only at ht' ⊢; rw [upd_ne _ _ (by omega)]; exact h.tP t' ht'
     · intro j m hp; simp only at hp ⊢
@@ -627,7 +645,13 @@ theorem KInv.keyCas {s s' : State} {t k : Nat} (h : KInv s) (hs : keyCas s t k =
     have hpn : ∀ j m, (s.key j).published = some m → m ≠ n := by
       intro j m hp e; subst e
       have := (h.kP j m hp).2.1; rw [hE.2.1] at this; subst this; exact hE.2.2.2.2.1 hp
-    refine ⟨?_, ?_, ?_, ?_, ?_, ?_, ?_, ?_, ?_, ?_, ?_, ?_⟩
+    refine ⟨?_, ?_, ?_, ?_, ?_, ?_, ?_, ?_, ?_, ?_, ?_, ?_, ?_⟩
+    rotate_right
+    · intro j m hl; simp only at hl ⊢
+      rw [(keyE j).1]
+      by_cases hj : j = k
+      · subst hj; exact ⟨m0, hpub⟩
+      · rw [upd_ne _ _ hj] at hl; exact h.kW j m hl
     · intro j hj; simp only at hj ⊢; rw [upd_ne _ _ (by omega)]; exact h.kB j hj
     · intro m hm; simp only at hm ⊢; rw [upd_ne _ _ (by omega)]; exact h.nB m hm
     · intro t' ht'; simp only at ht' ⊢; rw [upd_ne _ _ (by omega)]; exact h.tP t' ht'
@@ -2270,5 +2294,109 @@ theorem dtorLog_frame {s s' : State} {e : Ev} (hs : step s e = .ok s')
   | setLocal t' k' v => exact absurd rfl (h3 t' k' v)
   | replaceLocal t' k' v => exact absurd rfl (h1 t' k' v)
   | getLocal t' k' => obtain ⟨n, _, _, _, _, _, rfl⟩ := getLocal_ok hs; rfl
+
+/-! ## which steps free -/
+
+theorem unrefCore_free {s s' : State} {h : Nat} {own : Bool} (hs : unrefCore s h own = .ok s') :
+    s'.freeLog = (if (s.hdl h).refCount = unrefFreesWhenOldIs then s.freeLog ++ [h] else s.freeLog) := by
+  obtain ⟨_, ⟨hc, rfl⟩ | ⟨hc, rfl⟩⟩ := unrefCore_ok hs
+  · simp [hc]
+  · simp [hc]
+
+/-- thread termination frees at most one handle: the one stored in the library key's cell -/
+theorem runDtors_free {t : Nat} : ∀ {l : List Nat} {s s' : State}, KInv s → l.Nodup → runDtors t s l = .ok s' →
+    s'.freeLog = s.freeLog ∨
+    ∃ n, n ∈ l ∧ (s.nkey n).owner = 0 ∧ s.tls t n ≠ 0 ∧ (s.hdl (s.tls t n - 1)).refCount = unrefFreesWhenOldIs ∧
+      s'.freeLog = s.freeLog ++ [s.tls t n - 1]
+  | [], s, s', _, _, hs => by unfold runDtors at hs; injection hs with hs; subst hs; exact .inl rfl
+  | n :: r, s, s', hk, hnd, hs => by
+    obtain ⟨s1, h1, h2⟩ := runDtors_cons_ok hs
+    have hnr : n ∉ r := (List.nodup_cons.mp hnd).1
+    obtain ⟨a1, _, _, _, a5, _⟩ := dtorOne_frame h1
+    have tls1 : ∀ m, m ≠ n → s1.tls t m = s.tls t m := by
+      intro m hm; rw [a5]; split
+      · rw [upd2_ne _ _ (by simp [hm])]
+      · rfl
+    have ih := runDtors_free (hk.dtorOne h1) (List.nodup_cons.mp hnd).2 h2
+    rcases dtorOne_ok h1 with ⟨_, e⟩ | ⟨_, _, e⟩ | ⟨hd, ho, hu⟩
+    · subst e
+      rcases ih with ih | ⟨m, hm, x⟩
+      · exact .inl ih
+      · exact .inr ⟨m, by simp [hm], x⟩
+    · have hfl : s1.freeLog = s.freeLog := by rw [e]; rfl
+      have hh : s1.hdl = s.hdl := by rw [e]; rfl
+      rcases ih with ih | ⟨m, hm, x1, x2, x3, x4⟩
+      · exact .inl (ih.trans hfl)
+      · have hmn : m ≠ n := fun c => hnr (c ▸ hm)
+        rw [a1] at x1; rw [tls1 m hmn] at x2 x3 x4; rw [hh] at x3; rw [hfl] at x4
+        exact .inr ⟨m, by simp [hm], x1, x2, x3, x4⟩
+    · have hfl := unrefCore_free hu
+      simp only [cleared] at hfl
+      have stays : s'.freeLog = s1.freeLog := by
+        rcases ih with ih | ⟨m, hm, x1, x2, _⟩
+        · exact ih
+        · exfalso
+          have hmn : m ≠ n := fun c => hnr (c ▸ hm)
+          rw [a1] at x1; rw [tls1 m hmn] at x2
+          have p1 := hk.kV t n hd.2.2; have p2 := hk.kV t m x2
+          rw [ho] at p1; rw [x1] at p2; rw [p1] at p2; injection p2 with p2
+          exact hmn p2.symm
+      by_cases hc : (s.hdl (s.tls t n - 1)).refCount = unrefFreesWhenOldIs
+      · simp only [hc, if_true] at hfl
+        exact .inr ⟨n, by simp, ho, hd.2.2, hc, stays.trans hfl⟩
+      · simp only [hc, if_false] at hfl
+        exact .inl (stays.trans hfl)
+
+/-- handles are freed by `unref` — explicit, or by the library key's destructor at thread end — and by nothing else -/
+theorem freeLog_frame {s s' : State} {e : Ev} (hs : step s e = .ok s')
+    (h1 : ∀ a h, e ≠ .unref a h) (h2 : ∀ t, e ≠ .threadEnd t) : s'.freeLog = s.freeLog := by
+  cases e with
+  | spawn => have := spawn_ok hs; subst this; rfl
+  | createBegin a j n => obtain ⟨_, _, rfl⟩ := createBegin_ok hs; rfl
+  | createEnd a => obtain ⟨c, _, _, rfl⟩ := createEnd_ok hs; rfl
+  | start t' => obtain ⟨hd, n0, _, _, _, _, hp0, _, _, rfl⟩ := start_ok hs; rfl
+  | exit t' c =>
+    obtain ⟨n0, _, _, hp0, _, ⟨_, rfl⟩ | ⟨_, rfl⟩⟩ := exit_ok hs
+    · exact (currentCore_frameK s t' n0).2.2.1
+    · exact (currentCore_frameK s t' n0).2.2.1
+  | ret t' => obtain ⟨_, _, rfl⟩ := ret_ok hs; rfl
+  | threadEnd t' => exact absurd rfl (h2 t')
+  | ref a h => obtain ⟨_, _, _, _, rfl⟩ := ref_ok hs; rfl
+  | unref a h => exact absurd rfl (h1 a h)
+  | join a h => obtain ⟨_, _, _, _, ⟨_, rfl⟩ | ⟨_, _, _, rfl⟩⟩ := join_ok hs <;> rfl
+  | current t' => obtain ⟨n0, _, _, hp0, rfl⟩ := current_ok hs; exact (currentCore_frameK s t' n0).2.2.1
+  | localNew a nf => obtain ⟨_, rfl⟩ := localNew_ok hs; rfl
+  | localFree a k' => obtain ⟨_, _, _, _, rfl⟩ := localFree_ok hs; rfl
+  | keyCreate t' k' => obtain ⟨_, _, _, _, _, rfl⟩ := keyCreate_ok hs; rfl
+  | keyCas t' k' => obtain ⟨n, hpd, _, ⟨hpub, rfl⟩ | ⟨_, rfl⟩⟩ := keyCas_ok hs <;> rfl
+  | setLocal t' k' v => obtain ⟨n, _, _, _, _, _, rfl⟩ := setLocal_ok hs; rfl
+  | replaceLocal t' k' v => obtain ⟨n, _, _, _, _, _, rfl⟩ := replaceLocal_ok hs; rfl
+  | getLocal t' k' => obtain ⟨n, _, _, _, _, _, rfl⟩ := getLocal_ok hs; rfl
+
+
+/-! ## executable check of the discipline (for the non-vacuity examples) -/
+
+def checkDisc : State → List Ev → Bool
+  | _, [] => true
+  | s, e :: r => decide (Permitted s e) && (match step s e with | .ok s' => checkDisc s' r | .error _ => true)
+
+theorem checkDisc_sound : ∀ {es : List Ev} {s : State}, checkDisc s es = true → Disciplined s es
+  | [], _, _ => trivial
+  | e :: r, s, h => by
+    unfold checkDisc at h
+    simp only [Bool.and_eq_true, decide_eq_true_eq] at h
+    refine ⟨h.1, fun s' hs => ?_⟩
+    have h2 := h.2
+    rw [hs] at h2
+    exact checkDisc_sound h2
+
+theorem DReach.run : ∀ {es : List Ev} {s s' : State}, DReach s → Disciplined s es → run s es = .ok s' → DReach s'
+  | [], s, s', hr, _, hs => by unfold PV.UThread.run at hs; injection hs with hs; exact hs ▸ hr
+  | e :: r, s, s', hr, hd, hs => by
+    unfold PV.UThread.run at hs
+    split at hs
+    · cases hs
+    · rename_i s1 h1
+      exact DReach.run (.step e hr hd.1 h1) (hd.2 s1 h1) hs
 
 end PV.UThread
